@@ -26,3 +26,9 @@ claim("C09", "ClassAdWire+LiteralShortcut", "model_checking", "§6 C09",
   TB + "The fixed private names and the 9.9.0 cut-off come from HTCondor; 'omitted' is always allowed for a private attribute (the statement only forbids leaking); whitelists are spelled exactly (the statement is silent on whitelist case).",
   "TLA+ model checking (TLC) of the decision table + replay of every row into the real serialiser with canary search",
   "spec/ClassAdWire.tla")
+
+claim("C03", "HandshakeEvil", "model_checking", "§6 C03",
+  "TLC exhaustively checks RequiredAuthRan / RequiredEncOn / ReportedEncTruthful / ReportedAuthTruthful / NoClearAfterKey on HandshakeEvil.tla (endpoint under test x scripted-peer deviation catalogue: answers NO, omits / truncates / randomises / substitutes the ECDH key, no common cipher, selects an unoffered bit / several / zero, reports DENIED, post-auth ad in clear, key-less resumption) and enumerates every scenario (16 policies x method lists x 2 roles x fresh/resumed x deviations); each is executed as a real handshake of security.Authenticator against an independent scripted peer (harness/internal/peer, built on the reference codec) and must land in a terminal state the spec allows; in addition the HandshakeDone events of the repository's own tests are validated by TLC against HandshakeOutcome / ConnLifecycle trace specs.",
+  TB + "Only CLAIMTOBE completes as an exchange against the scripted peer (forged method internals are C11 / C18); resumed sessions are assumed established under the same policy; the reported method is compared with what ran only when Authentication=true.",
+  "TLA+ model checking (TLC) + spec->code replay against an independent scripted peer (terminal-state membership) + code->spec trace validation of handshake outcomes",
+  "spec/HandshakeEvil.tla", "TLA+ spec of one endpoint's handshake against a scripted-evil peer; harness/internal/peer + evilreplay replay it")
